@@ -66,6 +66,33 @@ func c14Order(p *Prog, r *Report) {
 	if nsrc == 0 {
 		r.Ob("source", p.Pos(fi.Decl.Pos()), false, "the configuration variable is never initialised from the defaults")
 	}
+	// the defaults must already be in the variable when the file is overlaid onto it: a source assignment
+	// precedes the unmarshal on every path that reaches it (its guards are a subset of the unmarshal's)
+	if unmarshal != nil {
+		reach := false
+		ug := map[string]bool{}
+		for _, g := range flattenGuards(unmarshal.Guards) {
+			ug[g.Key()] = true
+		}
+		for _, e := range x.Events {
+			if e.Kind == "assign" && e.Local == cfg && len(e.Idx) == 0 && e.Seq < unmarshal.Seq {
+				t := e.Val.single()
+				if t == nil || len(t.M) != 1 || !strings.Contains(t.M[0].A.Key, "hermes.NewDefaultConfig") {
+					continue
+				}
+				sub := true
+				for _, g := range flattenGuards(e.Guards) {
+					if !ug[g.Key()] {
+						sub = false
+					}
+				}
+				if sub {
+					reach = true
+				}
+			}
+		}
+		r.Ob("defaults-before-file", p.Pos(unmarshal.Pos), reach, fmt.Sprintf("the variable holds fresh defaults on every path to the file overlay: %v (otherwise a key missing in the file gets the zero value instead of its documented default)", reach))
+	}
 	// NewDefaultConfig is a pure constructor
 	if nd := p.Funcs["hermes.NewDefaultConfig"]; nd != nil {
 		pure := len(nd.Decl.Body.List) == 1
